@@ -520,3 +520,80 @@ def extract_unit(u: Unit):
             want_all.append((f".assign_coords(id_processor=row{j}['id_processor'], island=row{j}['island']).expand_dims(['island', 'id_processor'])", sorted(want.items())))
         judge(u, p, "extract.each_node_from_its_own_bucket_and_row", got_all, want_all, PAIRS_REPLAY)
     u.cover("extract.cover", ps, lambda p: p.kind == "return")
+
+
+# ---- Calibration.__init__: what the running mode keeps of what it is given ---------------------------------------------------------------
+CAL = "pyxel/calibration/calibration.py"
+CTOR_REPLAY = lambda w: {"code": """
+import numpy as np, tempfile, os
+from pyxel.calibration import Calibration, Algorithm
+from pyxel.pipelines import FitnessFunction
+from pyxel.observation import ParameterValues
+d = tempfile.mkdtemp(); fn = os.path.join(d, 't.npy'); np.save(fn, np.ones((3, 4)))
+VIOLATED, DETAIL = False, 'the calibration keeps the seeds and settings it is given (0 is a seed like any other)'
+for pyg, pipe in ((0, 0), (1111, 7), (0, None), (100000, 0)):
+    c = Calibration(target_data_path=[fn], fitness_function=FitnessFunction(func='pyxel.calibration.fitness.sum_of_abs_residuals'), algorithm=Algorithm(),
+                    parameters=[ParameterValues(key='a.b.c', values='_', boundaries=[0.0, 1.0])], pygmo_seed=pyg, pipeline_seed=pipe, num_islands=3, num_evolutions=4, num_best_decisions=5, topology='ring')
+    got = (c.pygmo_seed, c.pipeline_seed, c.num_islands, c.num_evolutions, c.num_best_decisions, c.topology)
+    if got != (pyg, pipe, 3, 4, 5, 'ring') or type(c.pygmo_seed) is not type(pyg):
+        VIOLATED, DETAIL = True, f'given pygmo_seed={pyg!r} pipeline_seed={pipe!r}: kept {got}'; break
+""", "expect": "Calibration(...).pygmo_seed / pipeline_seed / islands / evolutions are the given values, 0 included"}
+
+
+def calibration_ctor_unit(u: Unit):
+    """Calibration.__init__: for EVERY admissible optimiser seed (0..100000, zero included) and every pipeline seed (any integer or none)
+    the object keeps exactly the given value; islands, evolutions, best-decision count, topology, fitness function, algorithm, parameters,
+    fit ranges and weights are the given ones (absent sequences become empty); an optimiser seed outside 0..100000 or fewer than one island
+    is refused. A missing optimiser seed is drawn at random (boundary)."""
+    fi = u.fn(f"{CAL}::Calibration.__init__")
+    cci = u.cls(f"{CAL}::Calibration")
+    for seeds in ("given", "absent"):
+        cfg = Cfg("real")
+        boundary.install(cfg, prefixes=("xarray.", "dask.", "tqdm.", "pandas.", "pygmo.", "numpy.random."))
+        cfg.contracts[f"{CAL}::to_path_list"] = Contract(f"{CAL}::to_path_list", lambda ex, args, kwargs, fr: VOpaque("xr", None, {"label": "paths", "args": list(args), "truthy": True}), "paths resolved (C20 loaders)")
+        cfg.contracts["pyxel/pipelines/processor.py::get_result_id"] = Contract("pyxel/pipelines/processor.py::get_result_id", lambda ex, args, kwargs, fr: VOpaque("xr", None, {"label": "result_id", "args": list(args)}), "result id")
+        cfg.lib_overrides["repo:pyxel.set_options"] = lambda ex, f, args, kwargs, fr: NONE
+        for q in ("pyxel/options.py::set_options", "pyxel/__init__.py::set_options"):
+            cfg.contracts[q] = Contract(q, lambda ex, args, kwargs, fr: NONE, "global option (working directory)")
+
+        def setup(ex, seeds=seeds):
+            st = ex.st
+            h = ex.hold = {k: VOpaque("xr", None, {"label": k, "truthy": True}) for k in ("fitness_function", "algorithm", "parameters", "target_data_path", "readout", "weights")}
+            st.assume(z3.And(z3.Int("num_islands") >= -3, z3.Int("num_evolutions") >= 0))
+            kw = {"target_data_path": h["target_data_path"], "fitness_function": h["fitness_function"], "algorithm": h["algorithm"], "parameters": h["parameters"], "readout": h["readout"],
+                  "num_islands": VInt(z3.Int("num_islands")), "num_evolutions": VInt(z3.Int("num_evolutions")), "num_best_decisions": VInt(z3.Int("num_best")), "topology": VStr("ring"),
+                  "weights": h["weights"], "result_fit_range": NONE, "target_fit_range": VTuple([VInt(0), VInt(2), VInt(0), VInt(3)])}
+            if seeds == "given":
+                kw["pygmo_seed"] = VInt(z3.Int("pygmo_seed"))
+                kw["pipeline_seed"] = VInt(z3.Int("pipeline_seed"))
+            else:
+                kw["pygmo_seed"], kw["pipeline_seed"] = NONE, NONE
+            me = st.alloc(HObj(cci, {}))
+            ex.me = me
+            return [me], kw
+        ps = u.paths(fi, setup, cfg, label=f"Calibration.__init__[seeds {seeds}]")
+        pyg, pipe, isl = z3.Int("pygmo_seed"), z3.Int("pipeline_seed"), z3.Int("num_islands")
+        for p in ps:
+            f = p.st.cell(p.ex.me).fields
+            if p.kind != "return":
+                bad = z3.Or(isl < 1, pyg < 0, pyg > 100000) if seeds == "given" else (isl < 1)
+                u.oblige(p, f"calibration.ctor.refuses_only_bad_settings[{seeds}]", bad, {"exc": p.exc_name(), "pygmo_seed": pyg, "num_islands": isl}, CTOR_REPLAY)
+                continue
+            def num(v):
+                return z_int(v.v) if isinstance(v, VInt) else None
+            if seeds == "given":
+                got_pyg, got_pipe = num(f.get("_pygmo_seed")), num(f.get("_pipeline_seed"))
+                u.oblige(p, "calibration.ctor.keeps_the_optimiser_seed", z3.And(got_pyg == pyg, pyg >= 0, pyg <= 100000) if got_pyg is not None else z3.BoolVal(False), {"pygmo_seed": pyg}, CTOR_REPLAY)
+                u.oblige(p, "calibration.ctor.keeps_the_pipeline_seed", (got_pipe == pipe) if got_pipe is not None else z3.BoolVal(False), {"pipeline_seed": pipe}, CTOR_REPLAY)
+            else:
+                u.oblige(p, "calibration.ctor.no_pipeline_seed_stays_none", isinstance(f.get("_pipeline_seed"), VNone), {}, CTOR_REPLAY)
+            h = p.ex.hold
+            same = (num(f.get("_num_islands")) is not None and f.get("_fitness_function") is h["fitness_function"] and f.get("_algorithm") is h["algorithm"] and f.get("_parameters") is h["parameters"]
+                    and f.get("readout") is h["readout"] and f.get("_weights") is h["weights"] and isinstance(f.get("_topology"), VStr) and f["_topology"].v == "ring")
+            u.oblige(p, f"calibration.ctor.keeps_the_given_settings[{seeds}]",
+                     z3.And(zb(bool(same)), num(f["_num_islands"]) == isl, num(f["_num_evolutions"]) == z3.Int("num_evolutions"), num(f["_num_best_decisions"]) == z3.Int("num_best"), isl >= 1) if same else z3.BoolVal(False),
+                     {}, CTOR_REPLAY)
+            tfr, rfr = f.get("_target_fit_range"), f.get("_result_fit_range")
+            okr = isinstance(tfr, VTuple) and [getattr(x, "v", None) for x in tfr.items] == [0, 2, 0, 3] and p.ex.try_list(rfr) == []
+            u.oblige(p, f"calibration.ctor.fit_ranges_kept_or_empty[{seeds}]", bool(okr), {}, CTOR_REPLAY)
+        u.cover(f"calibration.ctor.cover[{seeds}]", ps, lambda p: p.kind == "return")
